@@ -19,7 +19,7 @@ from the certificate / the cached record and from no constant; (f) resumption: e
 verify_resume_mic is cut by its success edge; (g) verification results are never dropped.
 """
 CLAUSES = ['a: session completed only on verification success', 'b: chain validated against the addressed fabric root',
-           'c: proof of possession over both ephemeral keys', 'd: session identity from certificate / record',
+           'c: proof of possession over both ephemeral keys', 'd: session identity from certificate / record (a record enters the resumption cache whole)',
            'f: resumption gated by Resume1MIC', 'g: verification results not dropped']
 NOT_DECIDED = ['cryptographic soundness', 'mutated message yields same session or none', 'equal directional keys at both ends',
                'loss / reordering schedules']
